@@ -128,7 +128,7 @@ PROPS = {
         'technique': 'Verus contracts on every link of the chain next_probe -> do_send -> recv_response/complete_probe -> publish_trace -> StateUpdater::apply/update_for_probe; composition across loop iterations argued in DESIGN.md',
         'level_text': 'Each link between the network and the published statistics is proved: a probe handed to the network is recorded Awaited with its ttl/sequence/round/send time (whole-buffer frame); only a genuine response completes exactly that slot with responder address, receive time and ICMP type copied unchanged; transient send failures mark the slot Failed; publish_trace publishes exactly the issued prefix of the buffer; update_for_probe adds exactly one sent (plus one received with rtt = receive - send for Complete, plus one failed for Failed, nothing for NotSent/Skipped) to exactly the hop of the probe\'s ttl.',
         'level_note': 'The composition over the iterations of Strategy::run and over rounds is by the data-structure invariants (TracerState::wf, FlowState::wf) and is not mechanised as one theorem. Real sockets, kernel, SystemTime and that Channel::recv_probe hands over every delivered packet are outside. Wire -> Response is C02/C04/C11.',
-        'units': ['core_strategy', 'core_state'],
+        'units': ['core_strategy', 'core_state', 'core_net_build'],
         'assumptions': ['floating-point statistics are abstracted (T6)'],
         'explanation': 'probe outcome bookkeeping',
     },
@@ -208,7 +208,7 @@ PROPS = {
         'technique': 'Verus contracts on recv_response / complete_probe / in_round / check_trace_id / validate with a whole-state frame; TracerState invariant',
         'level_text': 'Strategy::recv_response is proved, for an abstract Network and any received response, to leave the whole TracerState (every slot, target_found, target_ttl, max_received_ttl, received_time) unchanged unless the response validates, carries this tracer\'s (or the zero) trace id, names a sequence issued in the current round and that probe is still Awaited; then exactly that slot becomes Complete. in_round is the 512-window, check_trace_id rejects foreign non-zero ids (two tracers with distinct non-zero ids: non-interference is this contract instantiated). advance_round moves the window forward or restarts at the initial sequence.',
         'level_note': 'Trusted: shims (SystemTime, Duration), derive(Clone)/derive_more models, abstract Network trait with ghost observations. Not covered: that the CLI assigns distinct non-zero ids (pid + i can wrap to 0; iterator-adapter code in trippy-tui). Previous-round separation after a sequence wrap is decided under C07.',
-        'units': ['core_strategy'],
+        'units': ['core_strategy', 'core_net_build'],
         'assumptions': ['the usize round counter does not overflow (assume in Strategy::run, 2^64 rounds)'],
         'explanation': 'response acceptance gate',
     },
